@@ -21,6 +21,7 @@ CONSTANTS
   DropDataWithEOF = %(drop)s
   AbortOnError = %(abort)s
   ResetOnError = %(reset)s
+  ReadTimeoutArmsWrite = %(rtw)s
   PeekN = 1
   MaxC = %(maxc)d
   MaxU = %(maxu)d
@@ -31,7 +32,7 @@ INVARIANTS %(inv)s
 PROPS = "PrefixInv FirstFinisherDelivered HalfCloseGetsReply Transparent"
 ALL_KINDS = '{"tcp", "sni", "ws"}'
 ACTIONS = ["CWrite", "CFin", "CRead", "CCloseAfterEOF", "CAbort", "UWrite", "UFin", "URead", "UCloseAfterEOF", "Peek",
-           "ReadHello", "Dial", "ProxyHdr", "ReplayHello", "Ws101", "CURead", "CUWrite", "CUEof", "UCRead",
+           "ReadHello", "Dial", "ProxyHdr", "ReplayHello", "Ws101", "CURead", "CUWrite", "CUEof", "CUTimeout", "UCRead",
            "UCWrite", "UCEof", "Finish"]
 SPLITS = [0, 1, 5, 8, 9, 10, 11, 43, 100, -1, -2]
 
@@ -45,9 +46,9 @@ INVARIANTS InOrder AllDelivered %s
 """
 
 
-def cfg(eof=False, raw=False, drop=False, abort=False, reset=False, maxc=2, maxu=2, kinds=ALL_KINDS, gen=False, deadlock=True):
+def cfg(eof=False, raw=False, drop=False, abort=False, reset=False, rtw=False, maxc=2, maxu=2, kinds=ALL_KINDS, gen=False, deadlock=True):
     tf = lambda b: "TRUE" if b else "FALSE"
-    return CFG % dict(eof=tf(eof), raw=tf(raw), drop=tf(drop), abort=tf(abort), reset=tf(reset), maxc=maxc, maxu=maxu,
+    return CFG % dict(eof=tf(eof), raw=tf(raw), drop=tf(drop), abort=tf(abort), reset=tf(reset), rtw=tf(rtw), maxc=maxc, maxu=maxu,
                       kinds=kinds, inv=PROPS + (" GenOut" if gen else ""),
                       dl="" if deadlock else "CHECK_DEADLOCK FALSE")
 
@@ -97,12 +98,23 @@ def build_cases(ctx, sink):
                          % (len(ambiguous), ambiguous[0]))
         return None, None, 0
     rng = random.Random(ctx.seed * 7919 + 17)
-    tcp, ws = [], []
+    tcp, ws, rtc = [], [], []
     n = 0
     for k in sorted(by):
         o = list(by[k].values())[0]
         sc = o["sc"]
         err = sc["uslow"] == 1
+        if sc["rt"] == 1:
+            # listener with a read timeout; every such case waits for the timeout to pass: a seeded sample is played
+            for path in {"tcp": ["tcp", "tls"] + (["dyn"] if sc["proxy"] == 0 else []), "sni": ["sni"]}[sc["kind"]]:
+                n += 1
+                c = dict(o)
+                c.update(path=path, spell=rng.choice(["tiny", "line", "line"]), hello=rng.choice(["tls13", "tls12"]), split=rng.choice(SPLITS), id=n,
+                         conf=rng.choice(["rt", "rt", "both"]))
+                if path == "tls":
+                    c.update(tlsver=rng.choice([12, 13]), cork=True)
+                rtc.append(c)
+            continue
         paths = {"tcp": ["tcp"] + (["dyn"] if sc["proxy"] == 0 else []) + ([] if err else ["tls"]), "sni": ["sni"], "ws": ["ws"]}[sc["kind"]]
         for path in paths:
             if err:
@@ -113,11 +125,16 @@ def build_cases(ctx, sink):
             for sp in spells:
                 n += 1
                 c = dict(o)
-                c.update(path=path, spell=sp, hello=rng.choice(["tls13", "tls12"]), split=rng.choice(SPLITS), id=n)
+                c.update(path=path, spell=sp, hello=rng.choice(["tls13", "tls12", "alpn5k", "alpn12k"]), split=rng.choice(SPLITS), id=n)
+                if path == "sni" and c["hello"].startswith("alpn") and sp != "huge":
+                    c["spell"] = sp = "big"      # more data behind a long hello than the hello is long
+                if sp in ("tiny", "line") and not err and path != "ws" and rng.random() < 0.3:
+                    c["conf"] = "wt"          # a write timeout on the listener changes nothing (small replies: a write never waits)
                 if path == "tls":
                     # the terminating listener: TLS 1.2 reports close_notify as its own record (data + EOF in one Read)
                     c.update(tlsver=rng.choice([12, 12, 13]), cork=rng.random() < 0.8)
                 (ws if path == "ws" else tcp).append(c)
+    tcp += rng.sample(rtc, min(len(rtc), 64 if not ctx.thorough else 480))
     return tcp, ws, len(by)
 
 
@@ -151,6 +168,10 @@ def run(ctx):
         "a reset legitimately discards data and the statement does not demand more than tcp gives",
         "tcp-dynamic is played without the PROXY option (the statement does not say the option applies there); websocket: the client speaks after it has read the 101 response; "
         "bytes pipelined behind the upgrade request and a 101 response split into pieces shorter than its status line are outside the statement ('once a connection is tunnelled')",
+        "listener configurations: tcp.Server without timeouts, with a write timeout (5 s, never reached: small replies to a reading client), and - on scenarios about it - "
+        "with a read timeout of 200 ms (alone and with the write timeout) where the upstream answers 500 ms after its trigger, i.e. after the client has been silent for longer than the timeout; "
+        "there only the reply is judged (a read timeout may end the silent client's own direction), and a seeded sample of these scenarios is played because each waits for the timeout to pass",
+        "ClientHellos on the sni path: real ones of ~200 B, ~1.5 KB, ~5 KB and ~12 KB (long ALPN lists), the long ones followed by more data than they are long",
         "interleaving of the real run is the scheduler's; only causal order is enforced (never sleeping); a scenario exceeding 10 s is inconclusive",
     ]
     # 2 (started first, collected below). each named deviation, alone, must be caught by TLC
@@ -158,7 +179,8 @@ def run(ctx):
             ("EndOnFirstEOF", dict(eof=True, maxc=1, maxu=1)),
             ("DropDataWithEOF", dict(drop=True, kinds='{"tcp"}', deadlock=False, maxc=1, maxu=1)),
             ("AbortOnError", dict(abort=True, kinds='{"tcp"}', deadlock=False, maxc=1, maxu=2)),
-            ("ResetOnError", dict(reset=True, kinds='{"tcp"}', deadlock=False, maxc=1, maxu=2)))
+            ("ResetOnError", dict(reset=True, kinds='{"tcp"}', deadlock=False, maxc=1, maxu=2)),
+            ("ReadTimeoutArmsWrite", dict(rtw=True, kinds='{"tcp"}', deadlock=False, maxc=1, maxu=1)))
     ex = ThreadPoolExecutor(max_workers=2)
     futs = [(name, tlc_bg(ctx, ex, "Tunnel_MC", cfg_text=cfg(**kw), workers=2, timeout=300)) for name, kw in devs]
 
@@ -229,7 +251,7 @@ def run(ctx):
             return
         s = r.summary
         ctx.log("%s: played %d cases (%s), %d failed, %d hung, %d not tunnelled, %.0fs"
-                % (sub, s["ran"], ", ".join("%s=%s" % (k, s[k]) for k in ("tcp", "sni", "dyn", "tls", "ws", "failing_direction") if k in s), s["fails"], s["hangs"], s["skipped"], r.wall))
+                % (sub, s["ran"], ", ".join("%s=%s" % (k, s[k]) for k in ("tcp", "sni", "dyn", "tls", "ws", "failing_direction", "read_timeout") if k in s), s["fails"], s["hangs"], s["skipped"], r.wall))
         for nrec in r.of_kind("note")[:3]:
             ctx.log("note:", nrec.get("msg"))
         if s.get("unsupported"):
